@@ -165,7 +165,7 @@ def _dispatch(task):
 def run(ctx):
     depth = 3 if ctx.thorough else 2
     with worlds.world("posc") as db:
-        graph, transitions = algebra.explore(db, depth)
+        graph, transitions = algebra.explore(db, depth, reciprocals=True)
         qts = sorted(db.GetQuantityTypes(), key=lambda q: -len(db.GetUnits(q)))
     _G["states"] = graph
     tasks = [(c, "v1") for c in chunks(range(len(graph)), 48)]
@@ -180,7 +180,7 @@ def run(ctx):
     ctx.transitions = transitions + c.get("pairs", 0) + c.get("simple_pairs", 0)
     ctx.traces = ctx.transitions
     ctx.rule = (
-        "BFS over products/quotients of %d atoms to depth %d; all ordered pairs of states with equal dimension vector (%d dimension classes) "
+        "BFS over products/quotients from %d atoms and their reciprocals 1.0/atom to depth %d; all ordered pairs of states with equal dimension vector (%d dimension classes) "
         "+ all ordered unit pairs of all quantity types (exponent 1); non-trivial = pairs whose composing maps (or units) differ"
         % (len(algebra.BASIS), depth, len({s.dimkey for s in graph}))
     )
